@@ -1,3 +1,121 @@
 import Holpy.Common.Sexp
-/- stub: replaced when the C10 model is built -/
-def main : IO Unit := Holpy.lineLoop (fun _ => "bad-op")
+import Holpy.C10.Model
+/-
+Line protocol of the C10 model (one s-expression in, one out):
+  (acnorm TREE)            -> TREE                       conj_norm / disj_norm on member ids
+  (conv FUEL CE TERM)      -> (ok LHS RHS) | (err KIND)  conversion combinators
+  (natnorm ONE NEXP)       -> NEXP                       data/nat.py norm_full (see Model.lean)
+  (isnf ONE NEXP)          -> T | F                      the normal-form predicate of norm_idem
+TREE = n | (n L R);  TERM = (a n) | (c F A) | (l x BODY);  PAT = (v n) | (a n) | (c F A)
+CE   = all | no | (rewr L R) | (then A B) | (else A B) | (try A) | (comb A B) | (comb1 A) | (arg A)
+     | (fun A) | (arg1 A) | (binop A) | (abs A) | (sub A) | (repeat A) | (bottom A) | (top A ...)
+     | (topsweep A) | (every A ...)
+NEXP = (at id size) | (num n) | (add X Y) | (mul X Y) | (suc X)
+-/
+open Holpy Holpy.C10
+
+namespace Holpy.C10.Driver
+
+partial def treeOf : Sexp → Option (Tree Nat)
+  | .list [.atom "n", l, r] => do some (.node (← treeOf l) (← treeOf r))
+  | s => do some (.leaf (← s.toNat?))
+
+partial def treeTo : Tree Nat → Sexp
+  | .leaf a => Sexp.ofNat a
+  | .node l r => .list [.atom "n", treeTo l, treeTo r]
+
+partial def termOf : Sexp → Option Term
+  | .list [.atom "a", n] => do some (.atom (← n.toNat?))
+  | .list [.atom "c", f, a] => do some (.comb (← termOf f) (← termOf a))
+  | .list [.atom "l", x, b] => do some (.abs (← x.toNat?) (← termOf b))
+  | _ => none
+
+partial def termTo : Term → Sexp
+  | .atom n => .list [.atom "a", Sexp.ofNat n]
+  | .comb f a => .list [.atom "c", termTo f, termTo a]
+  | .abs x b => .list [.atom "l", Sexp.ofNat x, termTo b]
+
+partial def patOf : Sexp → Option Pat
+  | .list [.atom "v", n] => do some (.var (← n.toNat?))
+  | .list [.atom "a", n] => do some (.atom (← n.toNat?))
+  | .list [.atom "c", f, a] => do some (.comb (← patOf f) (← patOf a))
+  | _ => none
+
+def everyCE : List CE → CE
+  | [] => .all
+  | [c] => c
+  | c :: cs => .thenC c (everyCE cs)
+
+partial def ceOf : Sexp → Option CE
+  | .atom "all" => some .all
+  | .atom "no" => some .no
+  | .list [.atom "rewr", l, r] => do some (.rewr (← patOf l) (← patOf r))
+  | .list [.atom "then", a, b] => do some (.thenC (← ceOf a) (← ceOf b))
+  | .list [.atom "else", a, b] => do some (.elseC (← ceOf a) (← ceOf b))
+  | .list [.atom "try", a] => do some (.tryC (← ceOf a))
+  | .list [.atom "comb", a, b] => do some (.comb (← ceOf a) (← ceOf b))
+  | .list [.atom "comb1", a] => do some (.comb1 (← ceOf a))
+  | .list [.atom "arg", a] => do some (.arg (← ceOf a))
+  | .list [.atom "fun", a] => do some (.fn (← ceOf a))
+  | .list [.atom "arg1", a] => do some (.arg1 (← ceOf a))
+  | .list [.atom "binop", a] => do some (.binop (← ceOf a))
+  | .list [.atom "abs", a] => do some (.absC (← ceOf a))
+  | .list [.atom "sub", a] => do some (.sub (← ceOf a))
+  | .list [.atom "repeat", a] => do some (.rep (← ceOf a))
+  | .list [.atom "bottom", a] => do some (.bottom (← ceOf a))
+  | .list [.atom "topsweep", a] => do some (.topSweep (← ceOf a))
+  | .list (.atom "top" :: cs) => do
+    let cs ← cs.mapM ceOf
+    some (.top (everyCE (cs.map .tryC)))
+  | .list (.atom "every" :: cs) => do
+    let cs ← cs.mapM ceOf
+    some (everyCE cs)
+  | _ => none
+
+partial def nexpOf : Sexp → Option NExp
+  | .list [.atom "at", i, sz] => do some (.atom (← i.toNat?) (← sz.toNat?))
+  | .list [.atom "num", n] => do some (.num (← n.toNat?))
+  | .list [.atom "add", a, b] => do some (.add (← nexpOf a) (← nexpOf b))
+  | .list [.atom "mul", a, b] => do some (.mul (← nexpOf a) (← nexpOf b))
+  | .list [.atom "suc", a] => do some (.suc (← nexpOf a))
+  | _ => none
+
+partial def nexpTo : NExp → Sexp
+  | .atom i sz => .list [.atom "at", Sexp.ofNat i, Sexp.ofNat sz]
+  | .num n => .list [.atom "num", Sexp.ofNat n]
+  | .add a b => .list [.atom "add", nexpTo a, nexpTo b]
+  | .mul a b => .list [.atom "mul", nexpTo a, nexpTo b]
+  | .suc a => .list [.atom "suc", nexpTo a]
+
+def errTo : Err → String
+  | .conv => "conv"
+  | .invalid => "invalid"
+  | .assertion => "assertion"
+  | .fuel => "fuel"
+
+def handle (line : String) : String :=
+  match Sexp.parse line with
+  | some (.list [.atom "acnorm", t]) =>
+    match treeOf t with
+    | some t => toString (treeTo (acNorm (fun a b => compare a b) t))
+    | none => "bad-op"
+  | some (.list [.atom "conv", fuel, ce, t]) =>
+    match fuel.toNat?, ceOf ce, termOf t with
+    | some n, some ce, some t =>
+      match interp n ce t with
+      | .ok (l, r) => toString (Sexp.list [.atom "ok", termTo l, termTo r])
+      | .error e => toString (Sexp.list [.atom "err", .atom (errTo e)])
+    | _, _, _ => "bad-op"
+  | some (.list [.atom "isnf", one, t]) =>
+    match one.toNat?, nexpOf t with
+    | some o, some t => toString (Sexp.ofBool (isNF o t))
+    | _, _ => "bad-op"
+  | some (.list [.atom "natnorm", one, t]) =>
+    match one.toNat?, nexpOf t with
+    | some o, some t => toString (nexpTo (norm o t))
+    | _, _ => "bad-op"
+  | _ => "bad-op"
+
+end Holpy.C10.Driver
+
+def main : IO Unit := Holpy.lineLoop Holpy.C10.Driver.handle
